@@ -70,13 +70,24 @@ def run(ctx):
     # operations whose effect on the hidden use counts is left open by the property (membership tests, get, views)
     # make TLC branch; a trace gets at most two membership/get calls and one view so that validation stays linear
     sure = ["store"] * 6 + ["lookup"] * 5 + ["delete", "pop", "popitem", "setdefault", "update", "len"] + ["iter"] * 4
-    for i in range(40 if quick else 400):
+    for i in range(120 if quick else 900):
         cap = rnd.randint(1, 4)
         length = 60 if quick else 150
         tr_ops = [rnd.choice(sure + ["clear"] * (i % 2)) for _ in range(length)]
         for name in (rnd.choice(["contains", "get"]), rnd.choice(["contains", "get"]), rnd.choice(["values", "items", "eq", "keys"])):
             tr_ops[rnd.randrange(length)] = name
-        traces.append(C06.random_trace(adapter, rnd, 6, [10, 20, 30], cap, length, tr_ops, scripted=True))
+        # two histories in three run over three keys only: stores of keys that are present and lookups that make counts overtake
+        # each other are then the rule, not the exception
+        hot = i % 3 != 0
+        if hot:
+            cap = 3 if i % 3 == 1 else 2
+            tr_ops = [rnd.choice(["store"] * 5 + ["lookup"] * 6 + ["iter"] * 3 + ["delete"] * 2 + ["pop", "setdefault"]) for _ in range(length)]
+        nkeys = 3 if hot else 6
+        if hot and cap == 3:
+            # three entries and a fourth key: counts overtake each other in the middle of the order, entries next to them leave
+            nkeys = 4
+            tr_ops = [rnd.choice(["store"] * 4 + ["lookup"] * 6 + ["delete"] * 3 + ["iter"] * 3) for _ in range(length)]
+        traces.append(C06.random_trace(adapter, rnd, nkeys, [10, 20, 30], cap, length, tr_ops, scripted=True))
     good = C06.split_failed(traces, ctx, "LFUCache", sig_fn)
     tconsts = dict(consts, Keys="{1,2,3,4,5,6}", Vals="{10,20,30}", Caps="{1,2,3,4}", MaxCnt=100000)
     tracecheck.check_traces(SPEC, model.constants_block(tconsts), good, ctx, "LFUCache", MUTATORS, sig_fn=sig_fn, dfs=True)
